@@ -17,7 +17,7 @@ func segOK(s text.Segment, n int) bool {
 }
 
 // c05Node checks one node and recurses. inLink: below a Link; blockLines: lines of the nearest
-// enclosing block that has lines (nil if none); lastStart: document-order cursor for text segments.
+// enclosing block that has lines (nil if none); lastStart: document-order cursor for text segments (end of the last text segment seen in the block).
 func (st *c05State) node(n ast.Node, parent ast.Node, inLink bool, blk ast.Node, lastStart *int) {
 	st.nodes++
 	if st.nodes > 4000 {
@@ -39,6 +39,46 @@ func (st *c05State) node(n ast.Node, parent ast.Node, inLink bool, blk ast.Node,
 	}
 	if isInline {
 		vp.Assert(parent != nil && parent.Type() != ast.TypeDocument, "inline node directly below the document")
+	}
+	// extension node kinds in legal places only (by kind name: the public contract of the extension ASTs)
+	pk := ""
+	if parent != nil {
+		pk = parent.Kind().String()
+	}
+	switch kind {
+	case "TableHeader", "TableRow":
+		vp.Assert(pk == "Table", "table row outside a table")
+	case "TableCell":
+		vp.Assert(pk == "TableHeader" || pk == "TableRow", "table cell outside a table row")
+	case "Table":
+		first := true
+		for c := n.FirstChild(); c != nil; c = c.NextSibling() {
+			ck := c.Kind().String()
+			if first {
+				vp.Assert(ck == "TableHeader", "table does not start with its header row")
+			} else {
+				vp.Assert(ck == "TableRow", "table child that is not a row")
+			}
+			first = false
+		}
+		vp.Assert(!first, "table without a header row")
+	case "DefinitionTerm", "DefinitionDescription":
+		vp.Assert(pk == "DefinitionList", "definition term/description outside a definition list")
+	case "DefinitionList":
+		if fc := n.FirstChild(); fc != nil {
+			vp.Assert(fc.Kind().String() == "DefinitionTerm", "definition list does not start with a term")
+		}
+	case "Footnote":
+		vp.Assert(pk == "FootnoteList", "footnote outside the footnote list")
+	case "FootnoteList":
+		vp.Assert(pk == "Document" && n.NextSibling() == nil, "footnote list is not the last child of the document")
+		for c := n.FirstChild(); c != nil; c = c.NextSibling() {
+			vp.Assert(c.Kind().String() == "Footnote", "footnote list child that is not a footnote")
+		}
+	case "TaskCheckBox":
+		vp.Assert(n.PreviousSibling() == nil && parent != nil && parent.Parent() != nil && parent.Parent().Kind().String() == "ListItem", "task check box that is not the first inline of a list item")
+	case "FootnoteLink", "FootnoteBacklink", "Strikethrough":
+		vp.Assert(isInline, "inline extension node typed as a block")
 	}
 	switch x := n.(type) {
 	case *ast.Heading:
@@ -68,8 +108,11 @@ func (st *c05State) node(n ast.Node, parent ast.Node, inLink bool, blk ast.Node,
 			if ls.Len() > 0 && x.Segment.Start <= x.Segment.Stop && x.Segment.Stop <= len(st.src) {
 				first, last := ls.At(0), ls.At(ls.Len()-1)
 				vp.Assert(x.Segment.Start >= first.Start && x.Segment.Stop <= last.Stop, "text segment outside its block's lines")
+				// document order: each text segment begins where the previous one ended, or later (no overlap)
 				vp.Assert(x.Segment.Start >= *lastStart, "text segments of a block are not in document order")
-				*lastStart = x.Segment.Start
+				if x.Segment.Stop > *lastStart {
+					*lastStart = x.Segment.Stop
+				}
 			}
 		}
 	case *ast.RawHTML:
